@@ -31,6 +31,16 @@ Theorem C37_subst_identity : forall r b decls call env,
 Proof. exact tpl_resolve_plain. Qed.
 Print Assumptions C37_subst_identity.
 
+(* ---- an integral float64 variable (what the API decodes request variables into) is rendered at a string position with
+   the very digits of its value, whatever its magnitude: the same text as the json.Number form, and the value a numeric
+   position gets (was refuted before fixes/filter-07: strconv.FormatInt(int64(v)) gave -9223372036854775808 from 2^63
+   on).  Domain of TpvFloat z: z is the exact value of the float64 (the tie records the value the decoding yields). *)
+Theorem C37_interpolate_exact : forall z,
+  tpl_json_to_string (TpvFloat z) = inr (tpl_z_to_string z) /\
+  tpl_json_to_string (TpvFloat z) = tpl_json_to_string (TpvNum z).
+Proof. intros z. split; reflexivity. Qed.
+Print Assumptions C37_interpolate_exact.
+
 (* ---- Overwrite is right-biased FIELD by field (fix 05-template-params-fieldwise): the last object
    overrides exactly the fields it carries -- endTime, startTime, expand, pageSize, sort column and
    order, the volumes options -- and every other field keeps the value the earlier objects gave it;
@@ -173,4 +183,11 @@ Proof. vm_compute. repeat split; reflexivity. Qed.
 Example C37_example_non_ascii :
   let b := TpLeaf TpoMatch "metadata[k1]" (TpjAtom (TpaStr (String (ascii_of_N 195) (String (ascii_of_N 169) " z")))) in
   tpl_resolve TpTransactions (Some b) [] [] = inr (Some b).
+Proof. vm_compute. reflexivity. Qed.
+
+(* the former witness of the int overflow: 2^63 bound as a float64, interpolated into an address *)
+Example C37_example_big_float :
+  tpl_resolve TpAccounts (Some (TpLeaf TpoMatch "address" (TpjAtom (TpaStr "acct:${n}"))))
+    [("n", {| tpd_type := TpNumeric; tpd_default := TpvNull |})] [("n", TpvFloat 9223372036854775808)]
+  = inr (Some (TpLeaf TpoMatch "address" (TpjAtom (TpaStr "acct:9223372036854775808")))).
 Proof. vm_compute. reflexivity. Qed.
